@@ -792,8 +792,10 @@ OverduePlacementInGraph(S, g, now) ==
     \E i \in 1..Len(GTasks(S, g)) : LET a == GTasks(S, g)[i] IN S.ts[a].st = SCHEDULED /\ S.ts[a].plan.tm < now
 \* known deviation (trace-replay graphs only): a source task of a later timestamp that is still VIRTUAL (its own release
 \* time has not arrived) has no completion estimate, and the frontier then judges its children by their other parents alone
-UnreleasedSourceParent(S, t) ==
-    \E i \in 1..Len(Parents(S, t)) : LET p == Parents(S, t)[i] IN S.ts[p].st = VIRTUAL /\ S.tk[p].src /\ S.ts[p].rel >= 0
+RECURSIVE UnreleasedSourceParent(_, _)
+UnreleasedSourceParent(S, t) ==      \* ... directly or through VIRTUAL tasks in between (their estimates inherit the gap)
+    \E i \in 1..Len(Parents(S, t)) : LET p == Parents(S, t)[i] IN
+        S.ts[p].st = VIRTUAL /\ ((S.tk[p].src /\ S.ts[p].rel >= 0) \/ UnreleasedSourceParent(S, p))
 \* known deviation (branch prediction policies other than ALL): the estimate of an undecided conditional is propagated to
 \* the predicted branch only, so a task of the other branch has no estimate and a task that also hangs on a predecessor
 \* outside the conditional (a skip edge into the branch) is judged by that predecessor alone
